@@ -555,6 +555,9 @@ def check(prop, tier, families=None, only_entry=None, verbose=False):
         f = Family(n)
         if prop in f.properties and (not families or n in families):
             fams.append(f)
+    if not fams:
+        print('no harness family serves property %r (see ./vf with no arguments for usage)' % prop)
+        return 2
     findings = load_findings()
     open_kf = {k['id']: k for k in findings.get('open', []) if k.get('property') == prop or prop in k.get('also', [])}
     qlist = []   # (fam, q, build)
